@@ -12,6 +12,13 @@ journal is empty and needs_recovery is clear.
     the independent decoder.  Every journal becomes a two-line behaviour validated by TLC against Trace_Jbd2
     (Recover must produce the observed blocks on all three front-ends; invariants ReplayExactOrDev and
     GroundTruthSound).  Final is evaluated by TLC from the logged history.
+    The journal superblock every front-end leaves is part of the observation: s_start = 0 and s_sequence = what
+    *_journal_release writes after a recovery with this outcome (= JsbAfter of the spec: past every transaction that
+    was live, unless a named deviation was taken), identical for the three front-ends.
+(2b) Second life of the log (spec/Jbd2Gen.tla): on the image one front-end left, the generator restarts the log from the
+    journal superblock it FINDS there (tid = observed s_sequence + 0/1, ring position 1, old blocks stay in place,
+    target blocks rewritten in place), a crash, and a second replay by all three front-ends.  TLC decides whether a
+    journal may be continued (RestartableOf) and validates the second replay against Final of the second life.
 (3) The repository's own j_* test images are decoded by the independent decoder and run the same way (extra traces)."""
 import os, sys, json, random, shutil, subprocess, time, struct, gzip, hashlib, concurrent.futures as cf
 from common import VERIF, fast_tmp, seed, die_broken, NPROC, tool_env, run as crun
@@ -62,19 +69,37 @@ def mc_constants(**kw):
     return c
 
 
+def gen_constants(**kw):
+    """Constants of Jbd2Gen (Jbd2 + lives of the log)."""
+    c = mc_constants(MaxGen=1, Skews="{0, 1}", MaxOver=0)
+    c.update(kw)
+    return c
+
+
 def model_check(ev, vd, tier, work):
     runs = []
     lit = dict(DevReplayPastBadTag="TRUE", DevScanAbort="TRUE", DevAsyncLastBadCommit="TRUE", DevCommitBreakContinues="TRUE")
+    P = ["ReplayExact", "PassesAgree", "GroundTruthSound", "TypeOK"]
+    # two lives of the log (Jbd2Gen): replay, restart from the journal superblock the replay left, new transactions over
+    # the old ring, crash, second replay.  ReplayExact in the second life: no block of a first-life transaction comes back.
+    G = ["ReplayExact", "PassesAgree", "GroundTruthSound", "GTypeOK"]
+    two = dict(MaxGen=2, Skews="{0, 1}", MaxOver=1, Blocks="{1}")
     if tier == "quick":
-        runs.append(("property-conforming transcription, csum v3", mc_constants(), ["ReplayExact", "PassesAgree", "GroundTruthSound", "TypeOK"], None, None))
+        runs.append(("property-conforming transcription, csum v3", mc_constants(), ["ReplayExact", "ReplayExactAlways", "PassesAgree", "GroundTruthSound", "TypeOK"], None, None))
         runs.append(("literal transcription, csum v3 + async, 2 damages", mc_constants(Async=1, MaxDmg=2, L=5, **lit), ["ReplayExactOrDev", "PassesAgree"], None, None))
+        runs.append(("two lives of the log, L=5, 1 block, partial writes, restart at s_sequence + {0, 1}, in-place rewrite (property-conforming)",
+                     gen_constants(L=5, MaxDmg=0, **two), G, None, None))
     else:
         for cs in (0, 1, 2, 3):
             runs.append(("property-conforming, csum %d" % cs, mc_constants(Csum=cs, MaxTags=2 if cs in (0, 3) else 1, OldTime=1 if cs == 2 else 0),
-                         ["ReplayExact", "PassesAgree", "GroundTruthSound", "TypeOK"], None, None))
+                         ["ReplayExact", "ReplayExactAlways", "PassesAgree", "GroundTruthSound", "TypeOK"], None, None))
         runs.append(("property-conforming, csum v3 + async, 2 damages", mc_constants(Async=1, MaxDmg=2), ["ReplayExact", "PassesAgree"], None, None))
         runs.append(("literal, csum v3 + async, 2 damages", mc_constants(Async=1, MaxDmg=2, **lit), ["ReplayExactOrDev", "PassesAgree"], None, None))
         runs.append(("literal, csum v2", mc_constants(Csum=2, MaxTags=2, **lit), ["ReplayExactOrDev", "PassesAgree"], None, None))
+        for cs in (1, 3):
+            runs.append(("two lives of the log, L=4, 1 block, 1 damage, csum %d (property-conforming)" % cs, gen_constants(L=4, Csum=cs, **two), G, None, None))
+        runs.append(("two lives of the log, L=5, 1 block, partial writes, csum v3 + async (literal)", gen_constants(L=5, MaxDmg=0, Async=1, **dict(two, **lit)),
+                     ["ReplayExactOrDev", "PassesAgree", "GTypeOK"], None, None))
         # beyond the exhaustive bound: simulation
         runs.append(("simulation L=8, 3 txns, 3 blocks, csum v3 + async, escapes, old times (property-conforming)",
                      mc_constants(L=8, Blocks="{1, 2, 3}", MaxTxn=3, MaxTags=2, MaxDmg=2, Async=1, EscSet="{0, 1}", OldTime=1),
@@ -82,15 +107,19 @@ def model_check(ev, vd, tier, work):
         runs.append(("simulation L=8, 3 txns, 3 blocks, csum v1 (property-conforming)",
                      mc_constants(L=8, Blocks="{1, 2, 3}", MaxTxn=3, MaxTags=2, MaxDmg=2, Csum=1, Async=1, EscSet="{0, 1}"),
                      ["ReplayExact", "PassesAgree", "GroundTruthSound"], 40000, 12))
+        runs.append(("simulation two lives of the log, L=6, 2 blocks, 1 damage, csum v3 (property-conforming)",
+                     gen_constants(MaxGen=2, Skews="{0, 1}", MaxOver=1), ["ReplayExact", "PassesAgree", "GroundTruthSound"], 4000, 24))
     for i, (label, consts, invs, sim, depth) in enumerate(runs):
+        two_lives = "MaxGen" in consts
         cfg = os.path.join(work, "MC_Jbd2_%d.cfg" % i)
-        T.write_cfg(cfg, spec="Spec", constants=consts, invariants=invs, constraints=["Bound"])
-        r = T.tlc(os.path.join(SPEC, "Jbd2.tla"), cfg, workers=4, timeout=3000, xmx="4g", env=jenv(), simulate=sim, depth=depth)
-        ev.add_tlc(r, "Jbd2 %s: %s" % (label, ", ".join(invs)))
+        T.write_cfg(cfg, spec="GSpec" if two_lives else "Spec", constants=consts, invariants=invs, constraints=["GBound" if two_lives else "Bound"])
+        modname = "Jbd2Gen" if two_lives else "Jbd2"
+        r = T.tlc(os.path.join(SPEC, modname + ".tla"), cfg, workers=4, timeout=3000, xmx="4g", env=jenv(), simulate=sim, depth=depth)
+        ev.add_tlc(r, "%s %s: %s" % (modname, label, ", ".join(invs)))
         if r.violated:
-            vd.violation("model:" + r.violated, "model: invariant %s violated in Jbd2 (%s)" % (r.violated, label), {"tlc_tail": r.out[-4000:], "constants": consts})
+            vd.violation("model:" + r.violated, "model: invariant %s violated in %s (%s)" % (r.violated, modname, label), {"tlc_tail": r.out[-4000:], "constants": consts})
         elif not r.ok and not (sim and r.rc == 0):
-            die_broken("TLC failed on Jbd2 (%s): %s\n%s" % (label, r.error, r.out[-2000:]))
+            die_broken("TLC failed on %s (%s): %s\n%s" % (modname, label, r.error, r.out[-2000:]))
 
 
 # ---------------------------------------------------------------------------------------------- images
@@ -167,36 +196,91 @@ def read_back(img, before, base, j, info):
     return obs, (0 if jsb["start"] == 0 else 1) if jsb["magic_ok"] else -1, nro, stray, jsb
 
 
-def run_journal(b, base, j, work, tag):
-    """Encode journal j, recover it with every front-end on its own copy; returns the observation record."""
+def run_frontends(b, base, src, before, j, info, work, tag, keep=None):
+    """Recover the image src with every front-end on its own copy; the copy of front-end number `keep` is kept."""
     env = tool_env(b)
-    src = os.path.join(work, "j_%s.img" % tag)
-    info = concretize(j, base, src)
-    with open(src, "rb") as f:
-        before = f.read()
-    res = {"obs": [], "jstart": [], "nro": [], "stray": [], "rc": [], "msg": []}
-    for fe in FRONTENDS:
+    res = {"obs": [], "jstart": [], "jseq": [], "nro": [], "stray": [], "rc": [], "msg": []}
+    kept = None
+    for k, fe in enumerate(FRONTENDS):
         img = os.path.join(work, "j_%s_%s.img" % (tag, fe))
         shutil.copyfile(src, img)
         rc, out, err = crun(fe_cmd(b, fe, img), env=env, timeout=60)
         obs, js, nro, stray, jsb = read_back(img, before, base, j, info)
         res["obs"].append(obs); res["jstart"].append(js); res["nro"].append(nro); res["stray"].append(stray)
+        res["jseq"].append(jsb["seq"] if jsb["magic_ok"] and jsb["seq"] < 2 ** 30 else -1)
         res["rc"].append(rc); res["msg"].append((out + err).decode("utf8", "replace")[-400:])
-        os.unlink(img)
+        if k == keep:
+            kept = img
+        else:
+            os.unlink(img)
+    return res, kept
+
+
+def run_journal(b, base, j, work, tag, g2=None):
+    """Encode journal j, recover it with every front-end on its own copy; returns the observation record.
+    g2 = {"fe": k, "seed": n, "index": n}: continue on the image front-end k left with a second life of the log
+    (gen/jbd2sample.continue_journal from the journal superblock found there), recover that with every front-end;
+    the second observation record is res["g2"]."""
+    src = os.path.join(work, "j_%s.img" % tag)
+    info = concretize(j, base, src)
+    with open(src, "rb") as f:
+        before = f.read()
+    res, kept = run_frontends(b, base, src, before, j, info, work, tag, keep=g2["fe"] if g2 else None)
     os.unlink(src)
+    if kept is None:
+        return res
+    try:
+        k = g2["fe"]
+        # nobody starts a new log on a journal that is not marked empty; unknown block contents cannot be continued from
+        if res["jstart"][k] == 0 and res["nro"][k] == 0 and res["jseq"][k] >= 0 and min(res["obs"][k]) >= 0 and S.sequential_ring(j):
+            j2 = S.continue_journal(random.Random(g2["seed"]), j, res["obs"][k], {"start": 0, "seq": res["jseq"][k]}, g2["index"])
+            if j2 is not None:
+                c = j["conc"]
+                with open(kept, "r+b") as f:
+                    for blk in j2["over"]:
+                        f.seek(base.tb[blk] * base.bs)
+                        f.write(J.payload(j2["fs0"][blk - 1], j2["fs0esc"][blk - 1], base.bs))
+                J.restart_journal(kept, j2, base.tb, first=c["first"], uuid_mode=c["uuid_mode"], junk_mode=c["junk_mode"])
+                with open(kept, "rb") as f:
+                    before2 = f.read()
+                r2, _ = run_frontends(b, base, kept, before2, j2, info, work, tag + "g2")
+                r2.update(fe=k, j2=j2, seen={"start": res["jstart"][k], "seq": res["jseq"][k]})
+                res["g2"] = r2
+    finally:
+        os.unlink(kept)
     return res
 
 
-def trace_of(j, res):
-    load = {"e": "load", "cfg": {"L": j["cfg"]["L"], "csum": j["cfg"]["csum"], "async": j["cfg"]["async"]},
+def load_line(j):
+    return {"e": "load", "cfg": {"L": j["cfg"]["L"], "csum": j["cfg"]["csum"], "async": j["cfg"]["async"]},
             "jsb": j["jsb"], "nr": j["nr"], "fs0": j["fs0"], "log": j["log"], "hist": j["hist"]}
-    rec = {"e": "recover", "obs": res["obs"], "jstart": res["jstart"], "nro": res["nro"], "stray": res["stray"]}
-    return [json.dumps(load, separators=(",", ":")), json.dumps(rec, separators=(",", ":"))]
+
+
+def recover_line(res):
+    return {"e": "recover", "obs": res["obs"], "jstart": res["jstart"], "jseq": res["jseq"], "nro": res["nro"], "stray": res["stray"]}
+
+
+def dumps(x):
+    return json.dumps(x, separators=(",", ":"))
+
+
+def trace_of(j, res):
+    return [dumps(load_line(j)), dumps(recover_line(res))]
+
+
+def trace_of_g2(j, res):
+    """Behaviour of the second life: load, the observed post-state of the first replay by front-end g2.fe, the
+    continuation the generator wrote on that image, the second replay by every front-end."""
+    g = res["g2"]
+    k, j2 = g["fe"], g["j2"]
+    replayed = {"e": "replayed", "fe": k, "obs": res["obs"][k], "jsb": g["seen"], "nro": res["nro"][k]}
+    restart = {"e": "restart", "skew": j2["skew"], "jsb": j2["jsb"], "nr": j2["nr"], "fs0": j2["fs0"], "log": j2["log"], "hist": j2["hist"]}
+    return [dumps(load_line(j)), dumps(replayed), dumps(restart), dumps(recover_line(g))]
 
 
 def trace_cfg(work, devs=None):
     cfg = os.path.join(work, "Trace_Jbd2.cfg")
-    consts = mc_constants(**(devs or CONF_DEVS))
+    consts = gen_constants(MaxGen=2, **(devs or CONF_DEVS))
     T.write_cfg(cfg, spec="TraceSpec", constants=consts, invariants=["ReplayExactOrDev", "TraceSound"], postcondition="TraceAccepted")
     return cfg
 
@@ -223,15 +307,32 @@ def canon(j):
     return hashlib.sha1(json.dumps([j["cfg"], j["jsb"], j["fs0"], j["log"]], sort_keys=True).encode()).hexdigest()
 
 
+def nontrivial2(j, j2):
+    """Second life: >= 1 committed transaction of the second life and >= 1 control block of the first life still in the ring."""
+    pre = 0
+    for h in j2["hist"]:
+        if not h["valid"]:
+            break
+        pre += 1
+    left = [p for p in range(1, j["cfg"]["L"] + 1) if p not in set(j2["written"]) and j["log"][p - 1]["t"] in ("desc", "revoke", "commit")]
+    return pre > 0 and bool(left)
+
+
 # ---------------------------------------------------------------------------------------------- conformance
-def conformance(ev, vd, b, work, journals, bases, label):
-    """journals: list of (journal, profile).  Runs, validates, routes findings.  Returns number accepted."""
+MAX_CONFIRM = 16        # rejected behaviours re-run and reported per kind (first / second life); the rest is counted
+PILOT = 72              # journals validated first (one cycle of the second-life strata); see conformance()
+
+
+def conformance(ev, vd, b, work, journals, bases, label, g2of=None):
+    """journals: list of (journal, profile).  g2of(i) -> None | {"fe", "seed", "index"}: second life for journal i.
+    Runs, validates, routes findings."""
     t0 = time.time()
+    g2of = g2of or (lambda i: None)
 
     def one(i):
         j, prof = journals[i]
         try:
-            return run_journal(b, bases[prof], j, work, "%s%d" % (label, i))
+            return run_journal(b, bases[prof], j, work, "%s%d" % (label, i), g2of(i))
         except Exception as e:      # encoder refused (e.g. descriptor overflow): harness problem, not a verdict
             return {"error": repr(e)}
     with cf.ThreadPoolExecutor(max_workers=JOBS) as ex:
@@ -243,69 +344,160 @@ def conformance(ev, vd, b, work, journals, bases, label):
     ev.cov["wall_tools_s"] += round(time.time() - t0, 1)
     # a front-end that dies from a signal or hangs did not recover the journal
     for i, r in enumerate(results):
-        for k, rc in enumerate(r["rc"]):
-            if rc < 0 or rc == 124:
-                vd.violation("crash:" + FRONTENDS[k], "%s terminated abnormally (rc %d) on journal %d" % (FRONTENDS[k], rc, i),
-                             {"journal": journals[i][0], "profile": journals[i][1], "msg": r["msg"][k]})
-    behaviours = [trace_of(journals[i][0], results[i]) for i in range(len(journals))]
+        for life, rr in ((1, r), (2, r.get("g2"))):
+            for k, rc in enumerate(rr["rc"] if rr else []):
+                if rc < 0 or rc == 124:
+                    vd.violation("crash:" + FRONTENDS[k], "%s terminated abnormally (rc %d) on journal %d (life %d of the log)" % (FRONTENDS[k], rc, i, life),
+                                 {"journal": journals[i][0], "profile": journals[i][1], "msg": rr["msg"][k], "g2": g2of(i)})
     cfg = trace_cfg(work)
     mod = os.path.join(SPEC, "Trace_Jbd2.tla")
-    tdir = os.path.join(work, "tr_" + label)
-    os.makedirs(tdir, exist_ok=True)
     os.environ.update(jenv())
-    res = tracecheck.validate(behaviours, mod, cfg, tdir, chunk_lines=300, timeout=1200, jobs=JOBS)
-    if res["broken"]:
-        die_broken("TLC failed on a trace chunk: %s\n%s" % (res["broken"][0]["error"], res["broken"][0]["out_tail"][-2500:]))
-    ev.cov["states"] += res["distinct"]; ev.cov["transitions"] += res["generated"]
-    # side output of TLC: Final, model result, deviations, stop reason per journal
-    outs = []
-    for ci in range(res["chunks"]):
-        p = os.path.join(tdir, "chunk%05d.ndjson.out" % ci)
-        if not os.path.exists(p):
-            die_broken("TLC wrote no side output for " + p)
-        for ln in open(p):
-            d = json.loads(ln)
-            if d.get("e") == "load":
-                outs.append(d)
-    if len(outs) != len(journals):
-        die_broken("side output has %d journals, expected %d" % (len(outs), len(journals)))
-    rejected = set()
-    for f in res["failures"]:
-        bi = f["behaviour"]
-        j, prof = journals[bi]
-        # re-run the whole journal (tools + TLC) before reporting
-        r2 = run_journal(b, bases[prof], j, work, "%sc%d" % (label, bi))
-        rej, matched, inv, tail, _ = tracecheck.confirm(trace_of(j, r2), mod, cfg, tdir)
-        if not rej:
+    outs, outs2 = {}, {}
+    rejected, rejected2 = set(), set()
+
+    def confirm_one(arg):
+        i, life, cdir = arg
+        j, prof = journals[i]
+        r2 = run_journal(b, bases[prof], j, work, "%sc%d_%d" % (label, life, i), g2of(i) if life == 2 else None)
+        if life == 2 and "g2" not in r2:
+            return i, life, r2, False, None, "second life not reproduced"
+        os.makedirs(cdir, exist_ok=True)
+        rej, matched, inv, tail, _ = tracecheck.confirm(trace_of(j, r2) if life == 1 else trace_of_g2(j, r2), mod, cfg, cdir)
+        return i, life, r2, rej, inv, tail
+
+    def validate_part(part, tdir):
+        """part: journal numbers.  Validates the behaviours of both lives of these journals, reads TLC's side output,
+        re-runs rejected behaviours (tools + TLC) and reports those rejected again.  Returns the number reported."""
+        behaviours, meta = [], []
+        for i in part:                  # first life of every journal, then the second lives
+            behaviours.append(trace_of(journals[i][0], results[i])); meta.append((i, 1))
+        for i in part:
+            if "g2" in results[i]:
+                behaviours.append(trace_of_g2(journals[i][0], results[i])); meta.append((i, 2))
+        os.makedirs(tdir, exist_ok=True)
+        res = tracecheck.validate(behaviours, mod, cfg, tdir, chunk_lines=300, timeout=1200, jobs=JOBS)
+        if res["broken"]:
+            die_broken("TLC failed on a trace chunk: %s\n%s" % (res["broken"][0]["error"], res["broken"][0]["out_tail"][-2500:]))
+        ev.cov["states"] += res["distinct"]; ev.cov["transitions"] += res["generated"]
+        # side output of TLC, one line per trace line: Final, model result, deviations, stop reason, JsbAfter; restartable
+        flat = []
+        for ci in range(res["chunks"]):
+            p = os.path.join(tdir, "chunk%05d.ndjson.out" % ci)
+            if not os.path.exists(p):
+                die_broken("TLC wrote no side output for " + p)
+            flat += [json.loads(ln) for ln in open(p)]
+        if len(flat) != sum(len(x) for x in behaviours):
+            die_broken("side output has %d lines, expected %d" % (len(flat), sum(len(x) for x in behaviours)))
+        off = 0
+        for bi, (i, life) in enumerate(meta):
+            if flat[off]["e"] != "load" or (life == 2 and flat[off + 2]["e"] != "restart"):
+                die_broken("side output out of step at behaviour %d" % bi)
+            if life == 1:
+                outs[i] = flat[off]
+            else:
+                outs2[i] = flat[off + 2]
+            off += len(behaviours[bi])
+        # rejected behaviours: re-run the whole journal (tools + TLC) before reporting; invariant violations first
+        todo = {1: [], 2: []}
+        for f in sorted(res["failures"], key=lambda f: (f["violated"] is None, f["behaviour"])):
+            todo[meta[f["behaviour"]][1]].append(meta[f["behaviour"]][0])
+        nreported = 0
+        for life in (1, 2):
+            pending = todo[life]
+            while pending:
+                batch, pending = pending[:MAX_CONFIRM], pending[MAX_CONFIRM:]
+                with cf.ThreadPoolExecutor(max_workers=JOBS) as ex:
+                    confirmed = list(ex.map(confirm_one, [(i, life, os.path.join(tdir, "conf%d_%d" % (life, i))) for i in batch]))
+                nrep = 0
+                for i, _, r2, rej, inv, tail in confirmed:
+                    if not rej:
+                        continue
+                    nrep += 1
+                    j, prof = journals[i]
+                    what = ("invariant %s violated" % inv) if inv else "observation is not what the transcription of recovery.c computes"
+                    if life == 1:
+                        rejected.add(i)
+                        o = outs[i]
+                        detail = "%s: observed %s jstart %s s_sequence %s needs_recovery %s stray %s; model %s, s_sequence %s; Final %s, JsbAfter.seq %s; stop reason %r, deviations %s (%s, %s)" % (
+                            what, r2["obs"], r2["jstart"], r2["jseq"], r2["nro"], r2["stray"], o["model"], o["seqmodel"], o["final"], o["seqafter"], o["reason"], o["devs"], prof, j["stratum"])
+                        vd.violation("%s@%s" % ("inv:" + inv if inv else "rejected", j["stratum"]["kind"]), detail,
+                                     {"journal": j, "profile": prof, "observed": r2, "tlc": o, "tlc_tail": tail[-1500:]})
+                    else:
+                        rejected2.add(i)
+                        g, o = r2["g2"], outs2[i]
+                        detail = ("second life of the log (first replay by %s left s_sequence %s; new log from tid %s): %s: observed %s jstart %s s_sequence %s needs_recovery %s stray %s; "
+                                  "model %s, s_sequence %s; Final of the second life %s, JsbAfter.seq %s; stop reason %r, deviations %s (%s, %s)") % (
+                            FRONTENDS[g["fe"]], g["seen"]["seq"], g["j2"]["jsb"]["seq"], what, g["obs"], g["jstart"], g["jseq"], g["nro"], g["stray"],
+                            o["model"], o["seqmodel"], o["final"], o["seqafter"], o["reason"], o["devs"], prof, g["j2"]["stratum"])
+                        vd.violation("%s@gen2:%s" % ("inv:" + inv if inv else "rejected", g["j2"]["stratum"]["kind"]), detail,
+                                     {"journal": j, "profile": prof, "g2": dict(g2of(i)), "observed": {k: v for k, v in r2.items() if k != "g2"},
+                                      "observed2": {k: v for k, v in g.items() if k != "j2"}, "journal2": g["j2"], "tlc": o, "tlc_tail": tail[-1500:]})
+                nreported += nrep
+                if nrep:        # enough to report; the remaining rejected behaviours of this kind are counted, not re-run
+                    ev.cov["rejected_not_rerun"] = ev.cov.get("rejected_not_rerun", 0) + len(pending)
+                    (rejected if life == 1 else rejected2).update(pending)
+                    pending = []
+        return nreported
+
+    # a pilot part first: a systematic breakage is reported from it (every rejected behaviour costs a JVM of its own in
+    # tracecheck.validate); only when the pilot part is clean is everything else validated
+    npilot = min(PILOT, len(journals))
+    parts = [list(range(npilot)), list(range(npilot, len(journals)))]
+    for pi, part in enumerate(parts):
+        if not part:
             continue
-        rejected.add(bi)
-        o = outs[bi]
-        what = ("invariant %s violated" % inv) if inv else "observation is not what the transcription of recovery.c computes"
-        detail = "%s: observed %s jstart %s needs_recovery %s stray %s; model %s; Final %s; stop reason %r, deviations %s (%s, %s)" % (
-            what, r2["obs"], r2["jstart"], r2["nro"], r2["stray"], o["model"], o["final"], o["reason"], o["devs"], prof, j["stratum"])
-        vd.violation("%s@%s" % ("inv:" + inv if inv else "rejected", j["stratum"]["kind"]), detail,
-                     {"journal": j, "profile": prof, "observed": r2, "tlc": o, "tlc_tail": tail[-1500:]})
-    # known-finding routing: accepted by the literal model, yet different from Final because a named deviation was taken
+        if validate_part(part, os.path.join(work, "tr_%s%d" % (label, pi))) and pi == 0 and parts[1]:
+            ev.cov["not_validated_after_pilot_violations"] = ev.cov.get("not_validated_after_pilot_violations", 0) + len(parts[1])
+            break
+    # known-finding routing: accepted by the literal model, yet different from the property because a named deviation was taken
     strata = ev.cov.setdefault("strata", {})
     reasons = ev.cov.setdefault("stop_reasons", {})
     devcount = ev.cov.setdefault("deviation_journals", {})
+    g2cov = ev.cov.setdefault("second_life", {"behaviours": 0, "skipped_by_spec": 0, "not_continued": 0, "strata": {}, "front_end_of_first_replay": {}, "stop_reasons": {}})
+    n1 = n2 = 0
     for i, (j, prof) in enumerate(journals):
+        if i not in outs:
+            continue
         o = outs[i]
         k = "csum%d/%s/%s" % (j["cfg"]["csum"], "64" if j["cfg"]["b64"] else "32", "async" if j["cfg"]["async"] else "sync")
         strata[k] = strata.get(k, 0) + 1
         reasons[o["reason"]] = reasons.get(o["reason"], 0) + 1
-        if i in rejected:
+        if i not in rejected:
+            n1 += 1
+            r = results[i]
+            if o["devs"] and (list(r["obs"][0]) != list(o["final"]) or r["jseq"][0] != o["seqafter"]):
+                for d in o["devs"]:
+                    devcount[d] = devcount.get(d, 0) + 1
+                    vd.violation("Dev" + d, "journal replay differs from the property because of deviation %s" % d,
+                                 {"journal": j, "profile": prof, "observed": r, "final": o["final"], "seqafter": o["seqafter"]})
+            if nontrivial(j):
+                ev.nontrivial(canon(j))
+        if g2of(i) is None:
             continue
-        if o["devs"] and list(results[i]["obs"][0]) != list(o["final"]):
-            for d in o["devs"]:
+        if "g2" not in results[i]:
+            g2cov["not_continued"] += 1
+            continue
+        o2, g = outs2[i], results[i]["g2"]
+        if not o2["restartable"]:
+            g2cov["skipped_by_spec"] += 1
+            continue
+        if i in rejected2:
+            continue
+        g2cov["behaviours"] += 1; n2 += 1
+        st = g["j2"]["stratum"]
+        for key, val in (("strata", "%s/%s/skew%d" % (st["kind"], st["align"], st["skew"])), ("front_end_of_first_replay", FRONTENDS[g["fe"]]),
+                         ("stop_reasons", o2["reason"])):
+            g2cov[key][val] = g2cov[key].get(val, 0) + 1
+        if o2["devs"] and (list(g["obs"][0]) != list(o2["final"]) or g["jseq"][0] != o2["seqafter"]):
+            for d in o2["devs"]:
                 devcount[d] = devcount.get(d, 0) + 1
                 vd.violation("Dev" + d, "journal replay differs from the property because of deviation %s" % d,
-                             {"journal": j, "profile": prof, "observed": results[i], "final": o["final"]})
-        if nontrivial(j):
-            ev.nontrivial(canon(j))
-    ev.cov["traces_validated_against_impl"] += len(journals) - len(rejected)
-    ev.cov["evaluations"] += 3 * len(journals)
-    return results, outs
+                             {"journal": j, "profile": prof, "g2": dict(g2of(i)), "journal2": g["j2"], "observed2": {k: v for k, v in g.items() if k != "j2"}, "final": o2["final"]})
+        if nontrivial2(j, g["j2"]):
+            ev.nontrivial("g2:" + canon(j) + canon(g["j2"]))
+    ev.cov["traces_validated_against_impl"] += n1 + n2
+    ev.cov["evaluations"] += 3 * len(outs) + 3 * len(outs2)
+    return results, [outs.get(i) for i in range(len(journals))]
 
 
 def run(tier):
@@ -333,19 +525,26 @@ def run(tier):
             journals.append((j, profs[0] if i % 4 < 2 else profs[1 + (i % 4) - 2]))
         batch = 2240
         first = None
+        sd = seed()
         for s in range(0, n, batch):
-            r, o = conformance(ev, vd, b, work, journals[s:s + batch], bases, "s%d_" % (s // batch))
+            # second life: the front-end of the first replay and the strata of the continuation cycle with the journal number
+            # (3 front-ends x 2 skews x 3 alignments x 12 damage kinds, co-prime strides against the 14 x 16 of the first life)
+            g2of = (lambda s: lambda i: {"fe": (s + i) % 3, "seed": sd * 1000003 + s + i, "index": (s + i) // 3 + 5 * ((s + i) % 3)})(s)
+            r, o = conformance(ev, vd, b, work, journals[s:s + batch], bases, "s%d_" % (s // batch), g2of)
             if first is None:
                 first = (journals[0], r[0], o[0])
         xcheck_debugfs_writer(ev, vd, b, work, bases["ext4_1k"])
         repo_tests(ev, vd, b, work)
         ev.cov["rule"] = ("journals drawn by a seeded sampler stratified over 16 feature configurations (csum none/v1/v2/v3 x 32/64-bit tags x async) "
                           "x 14 damage kinds, on 3 image profiles; non-trivial = >= 1 committed transaction and >= 1 of {revoke hit, escaped block, "
-                          "ring wrap, uncommitted tail, checksum failure}; distinct by canonical form (cfg, jsb, fs0, log)")
+                          "ring wrap, uncommitted tail, checksum failure}; distinct by canonical form (cfg, jsb, fs0, log).  Second life of the log: every journal the "
+                          "spec allows to continue (RestartableOf) is continued on the image of one front-end (cycling) from the journal superblock found "
+                          "there, strata skew 0/1 x alignment x 12 damage kinds; non-trivial = >= 1 committed transaction of the second life and >= 1 control "
+                          "block of the first life still in the ring; distinct by the canonical forms of both lives")
         (j0, p0), r0, o0 = first
         ev.sample({"journal": {"cfg": j0["cfg"], "jsb": j0["jsb"], "fs0": j0["fs0"], "hist": [{k: h[k] for k in ("seq", "tags", "rev", "valid")} for h in j0["hist"]]},
                    "observed": r0["obs"], "final_by_tlc": o0["final"], "stop_reason": o0["reason"]})
-        ev.cov["checker_cmd"] = "TRACE=<chunk> tlc -workers 1 -config Trace_Jbd2.cfg spec/Trace_Jbd2.tla (POSTCONDITION TraceAccepted, INVARIANT ReplayExactOrDev, TraceSound)"
+        ev.cov["checker_cmd"] = "TRACE=<chunk> tlc -workers 1 -config Trace_Jbd2.cfg spec/Trace_Jbd2.tla (EXTENDS Jbd2Gen; POSTCONDITION TraceAccepted, INVARIANT ReplayExactOrDev, TraceSound)"
         ev.assumptions = [
             "fast-commit replay (ext4_fc_replay*) is not modelled: journals never carry JBD2_FEATURE_INCOMPAT_FAST_COMMIT (DESIGN section 6)",
             "damage is restricted to what the format can detect: control blocks missing/stale/wrongly sequenced, checksum failures where the scheme has a checksum, "
@@ -354,6 +553,9 @@ def run(tier):
             "target blocks are free data blocks; every other block may be rewritten by the front-ends only if it is filesystem metadata (stray-write check)",
             "internal journal only (journal inode, extent-mapped and block-mapped); external journal devices are exercised by the repository images j_ext_* only",
             "the first front-end is invoked as `e2fsck -y -E journal_only` (with -f the option has no effect: check_if_skip returns early)",
+            "a second life of the log is started only on a journal whose recovery succeeded without a named deviation, that is marked empty, and whose ring is what a "
+            "sequential writer leaves: no control block carries a transaction id beyond the transaction the replay stopped at (RestartableOf in spec/Jbd2Gen.tla, "
+            "decided by TLC); the new log starts at ring position 1 with tid s_sequence (debugfs writer) or s_sequence + 1 (kernel), s_sequence read from the image",
         ]
         return vd.finish()
     finally:
@@ -486,26 +688,33 @@ def replay(path):
     if "journal" not in rp:
         print("replay artefact carries no journal (model-level finding): see its tlc_tail"); return 1
     j, prof = rp["journal"], rp.get("profile", "ext4_1k")
+    g2 = rp.get("g2")
     work = fast_tmp()
     try:
         b = build.build()
         base = Base(b, work, prof)
-        r = run_journal(b, base, j, work, "rp")
+        r = run_journal(b, base, j, work, "rp", g2)
         os.environ.update(jenv())
         devs = dict(CONF_DEVS)
-        if d.get("key", "").startswith("fixed:"):
-            pass
-        rej, matched, inv, tail, _ = tracecheck.confirm(trace_of(j, r), os.path.join(SPEC, "Trace_Jbd2.tla"), trace_cfg(work, devs), work)
-        print("observed:", json.dumps({k: r[k] for k in ("obs", "jstart", "nro", "stray", "rc")}))
+        if g2 and "g2" not in r:
+            print("the second life of the log could not be written on the image the first replay left: observed", json.dumps({k: r[k] for k in ("obs", "jstart", "jseq", "nro")}))
+            g2 = None
+        beh = trace_of_g2(j, r) if g2 else trace_of(j, r)
+        rr = r["g2"] if g2 else r
+        rej, matched, inv, tail, _ = tracecheck.confirm(beh, os.path.join(SPEC, "Trace_Jbd2.tla"), trace_cfg(work, devs), work)
+        if g2:
+            print("first replay by %s left:" % FRONTENDS[rr["fe"]], json.dumps({"obs": r["obs"][rr["fe"]], "jsb": rr["seen"]}), "second life:", json.dumps(rr["j2"]["stratum"]))
+        print("observed:", json.dumps({k: rr[k] for k in ("obs", "jstart", "jseq", "nro", "stray", "rc")}))
         outp = os.path.join(work, "confirm_%d.ndjson.out" % os.getpid())
         o = None
         if os.path.exists(outp):
-            o = json.loads(open(outp).readline())
-            print("TLC: Final %s model %s deviations %s stop reason %r" % (o["final"], o["model"], o["devs"], o["reason"]))
+            o = [json.loads(x) for x in open(outp)][2 if g2 else 0]
+            print("TLC: Final %s JsbAfter.seq %s model %s deviations %s stop reason %r%s" % (o["final"], o["seqafter"], o["model"], o["devs"], o["reason"],
+                                                                                             (" restartable %s" % o["restartable"]) if g2 else ""))
         if rej:
             print(tail[-1200:])
             print("VIOLATION property=%s replay=%s" % (PID, path)); return 1
-        if o and o["devs"] and list(r["obs"][0]) != list(o["final"]):
+        if o and o["devs"] and (list(rr["obs"][0]) != list(o["final"]) or rr["jseq"][0] != o["seqafter"]):
             vd = Verdict(PID, Evidence(PID, "quick", "model_checking")); load_known(vd)
             keys = ["Dev" + x for x in o["devs"]]
             if all(k in vd.known for k in keys):
